@@ -99,6 +99,27 @@ CLAIMED = {
              "C19_counterexample_old_sites and repaired (fix: commit 6eaac48).",
         technique="Lean 4 proof (block invariant by induction) + regenerated call-site facts (translator) + differential correspondence",
         ref="§7 C19"),
+    "C07": dict(
+        text="Lean 4 theorems over an executable model of the EVM ante chain (one pass per decorator over all messages), the EthereumTx "
+             "message server's nonce handling and baseapp's ante/exec split: an admitted tx has valid signatures and nonces equal to the "
+             "consecutive sequence numbers of its senders; every sender's sequence ends exactly +count whether execution succeeds, "
+             "reverts or fails; sequences never decrease; over every submission history no (signer, nonce) takes effect twice; replays are "
+             "rejected. T1: the EVM decorator chain is regenerated from the source. Correspondence through full DeliverTx on the real app.",
+        note="Trusted: Lean kernel; harness; extractor; signature recovery and the EVM interpreter as parameters (per-message flags / gas "
+             "used taken from the real run).",
+        technique="Lean 4 proof (history invariant: executed nonces below the sequence, no duplicates) + regenerated ante-chain fact + "
+                  "differential correspondence over ABCI",
+        ref="§7 C07"),
+    "C05": dict(
+        text="Lean 4 theorems over the same model: net gas payment F-R within one unibi of gasUsed x effective price and never above "
+             "gasLimit x price (integer floor arithmetic in wei/unibi), conservation of unibi among all involved accounts and the fee "
+             "collector for every tx (accepted, rejected, failing, reverting, multi-message), a failing tx changes only the fee and the "
+             "nonce, collector gain equals the signer's payment. The implementation's total supply is observed constant by the "
+             "correspondence run.",
+        note="Trusted: Lean kernel; harness; EVM interpreter as a parameter. Internal value moves by contracts, self-destruct and "
+             "precompile bank moves are outside this model (C03/C04).",
+        technique="Lean 4 proof (floor-division inequalities, sum-preservation over account lists) + differential correspondence over ABCI",
+        ref="§7 C05"),
 }
 
 PENDING_REASON = "not claimed yet: model/proofs for this property are still being built (see DESIGN.md §9 build order)"
